@@ -855,8 +855,47 @@ def run_hashseeds(nseeds, res):
         shutil.rmtree(tmpd, ignore_errors=True)
 
 
+FIRST_CALL_DOCS = ['\\begin{equation}\\item x\\end{equation}', '\\begin{align}\\alpha + \\frac{\\beta}{2} \\in [0,1)\\end{align}',
+                   '\\begin{verbatim}\\end{verbatim} t', '\\begin{lstlisting} $ { \\end{lstlisting}', '\\textbf x \\cup [a',
+                   '\\begin{itemize}\\item a\\item[b] c\\end{itemize}', '$\\left( x \\right]$ \\in', '\\newcommand{\\e}{\\end{a}}',
+                   '\\cmd{a}{a}{b}', '\\begin{foobar}\\x{\\end{foobar}', '{', '\\item']
+
+
+def run_first_calls(res):
+    """The result of parsing a document as the FIRST call of a fresh interpreter
+    equals its result in this (long-running, already exercised) process: what a
+    parse returns does not depend on how many parses came before it."""
+    script = ('import sys, json\nsys.path.insert(0, %r)\nsys.path.insert(0, %r)\nimport impl\n'
+              's = json.loads(sys.argv[1])\nprint(json.dumps([impl.canon_parse(s, t, watchdog=5) for t in (0, 1)]))'
+              % (REPO, os.path.join(VERIF, 'harness')))
+    procs = []
+    for d in FIRST_CALL_DOCS:
+        env = dict(os.environ)
+        env['PYTHONHASHSEED'] = '0'
+        procs.append((d, subprocess.Popen([sys.executable, '-c', script, json.dumps(d)], env=env,
+                                          stdout=subprocess.PIPE, stderr=subprocess.DEVNULL)))
+    for d, p in procs:
+        o, _ = p.communicate()
+        res.evaluations += 1
+        try:
+            fresh = json.loads(o.decode())
+        except ValueError:
+            res.fail(Failure('C17', 'first-call-run-crashed', d, o[-200:].decode('utf-8', 'replace'), 'results'))
+            continue
+        here = [impl.canon_parse(d, t, watchdog=5) for t in (0, 1)]
+        if fresh != here:
+            res.fail(Failure('C17', 'earlier-parse-or-edit-influences-parse', d,
+                             {'in this process (after other parses)': [x[:200] for x in here]},
+                             {'as the first call of a fresh interpreter': [x[:200] for x in fresh]}))
+    res.count('first-call-documents', len(FIRST_CALL_DOCS))
+
+
 def oracle_C17(tier):
     res = Result('oracle-C17')
+    try:
+        run_first_calls(res)
+    except Exception as e:      # noqa
+        res.notes.append('first-call comparison did not run: %r' % (e,))
     rng = rng_for('C17', 'inputs')
     n = 60 if tier == 'quick' else 600
     docs = [s for s, _ in inputs.grammar_docs('C17', n, 3, maxchars=300)]
